@@ -321,6 +321,7 @@ type Ctx struct {
 	doSeq   int
 	wrapB   *Case // set while an earlier case is re-run after wrapB
 	wrapA   *Case
+	wrapV   *Case // set while a case is re-run with the library's logging at Trace level
 	Reruns  int64
 }
 
@@ -471,7 +472,12 @@ func (c *Ctx) Inconclusive(s string) { c.rep.Inconcl = append(c.rep.Inconcl, s) 
 // Fail records a violation. Only the first witness per (oracle,target,signature)
 // is kept; later ones are counted.
 func (c *Ctx) Fail(k *Case, signature, detail string) {
-	if c.wrapA != nil {
+	if c.wrapV != nil {
+		jk, _ := json.Marshal(c.wrapV)
+		k = &Case{Oracle: WithTrace, Target: c.wrapV.Target, S: []string{string(jk)}}
+		signature = "with-trace-logging:" + signature
+		detail = fmt.Sprintf("the case (%s on %s) passed with the library's default log level; re-run with the logger at Trace level it reports: %s", c.wrapV.Oracle, c.wrapV.Target, detail)
+	} else if c.wrapA != nil {
 		// a case that passed when it ran first complains when re-run after another one
 		jb, _ := json.Marshal(c.wrapB)
 		ja, _ := json.Marshal(c.wrapA)
@@ -548,6 +554,26 @@ func PanicClass(r interface{}) string {
 // AfterOther names the built-in composite oracle: S = [JSON of case B, JSON of case A].
 const AfterOther = "after-other"
 
+// WithTrace names the built-in oracle that re-runs a case (S = [JSON of the case])
+// with the library under test configured for its most verbose logging.
+const WithTrace = "with-trace-logging"
+
+// VerboseHook runs fn with the library's logger at its most verbose level and
+// restores the level afterwards. Set by the monitor package (core knows nothing
+// of the library).
+var VerboseHook func(fn func())
+
+func withTrace(c *Ctx, k *Case) {
+	var a Case
+	if len(k.S) != 1 || json.Unmarshal([]byte(k.S[0]), &a) != nil || VerboseHook == nil {
+		c.Inconclusive("malformed with-trace-logging case")
+		return
+	}
+	c.wrapV = &a
+	VerboseHook(func() { c.runOne(&a) })
+	c.wrapV = nil
+}
+
 func caseSize(k *Case) int {
 	n := 8 * len(k.I)
 	for _, b := range k.B {
@@ -620,11 +646,18 @@ func (c *Ctx) Do(k *Case) {
 	before := c.rep.Counters["violating_cases"]
 	nInc := len(c.rep.Inconcl)
 	c.runOne(k)
-	if c.Replay || c.wrapA != nil || !c.interleaved(k.Oracle) || caseSize(k) > 4096 {
+	if c.Replay || c.wrapA != nil || c.wrapV != nil || !c.interleaved(k.Oracle) || caseSize(k) > 4096 {
 		return
 	}
 	passed := c.rep.Counters["violating_cases"] == before && len(c.rep.Inconcl) == nInc
 	c.doSeq++
+	if passed && c.doSeq%8 == 3 && VerboseHook != nil {
+		// configuration must not change outcomes: the same case with Trace-level logging
+		c.wrapV = k
+		VerboseHook(func() { c.runOne(k) })
+		c.wrapV = nil
+		c.rep.Counters["trace_level_reruns"]++
+	}
 	if c.doSeq%4 == 0 && len(c.recent) > 0 {
 		a := c.recent[(c.doSeq/4)%len(c.recent)]
 		c.wrapB, c.wrapA = k, a
@@ -647,6 +680,9 @@ func (c *Ctx) runOne(k *Case) {
 	f := c.Prop.Oracles[k.Oracle]
 	if k.Oracle == AfterOther {
 		f = afterOther
+	}
+	if k.Oracle == WithTrace {
+		f = withTrace
 	}
 	if f == nil {
 		panic("unknown oracle " + k.Oracle)
